@@ -294,6 +294,19 @@ def Seq.setSymbols (s : Seq α) (syms : List α) : Except Err (Seq α) :=
 def Seq.frequency (s : Seq α) : List Nat :=
   (List.range s.alph.length).map fun i => s.codes.count i
 
+/-- `sequence[a:b] = other_sequence` (repaired code): assignment of a Sequence is assignment of its
+symbols.  If this alphabet extends the other one the codes coincide and are copied; otherwise the
+other sequence's symbols are encoded again (a symbol outside this alphabet → `AlphabetError`). -/
+def Seq.setSliceSeq (s : Seq α) (a b : Option Int) (item : Seq α) : Except Err (Seq α) :=
+  if extends_ s.alph item.alph then
+    match placeCodes s.codes a b item.codes with
+    | .ok c => .ok { s with codes := c }
+    | .error e => .error e
+  else
+    match item.symbols with
+    | .error e => .error e
+    | .ok syms => s.setSlice a b syms
+
 /-- `general_sequence.as_type(other)`: `other` receives the code if its alphabet extends this one. -/
 def Seq.asType (a b : Seq α) : Except Err (Seq α) :=
   if extends_ b.alph a.alph then .ok { b with codes := a.codes } else .error .alphabetError
